@@ -74,7 +74,7 @@ def run(ctx):
   ctx.trusted = ["text pins tools/translate_pins.py (NCA / MLKR / LMNN fit, loss and gradient functions)", "Coq 8.16.1 kernel + vm_compute", "documented objectives Model/Objectives.v", "Base/FExp.v: exp on binary64 (accuracy ~1e-12, validated against numpy per run)",
                  "oracle: scipy L-BFGS-B; target neighbours (Euclidean k-NN within class) recomputed by brute force",
                  "gradients are certified per instance by finite differences, not by a theorem"]
-  ok = ctx.build_property(gen_needed=['Src_nca'])
+  ok = ctx.build_property(gen_needed=['Src_nca', 'Src_mlkr'])
   terms, recs = [], []
   n = 90 if thorough else 24
   for i in range(n):
